@@ -723,7 +723,31 @@ def gen_chains(rng, count, consumers=None, style="wild"):
     return cases
 
 
-def run_stream(ctx, model, cases, stream, tol=common.TOL, on_result=None, rerun=True, narrow=True, pipeline=True, layout=True, strict=True, payload=True):
+def tile_twin(ctx, c, out, k):
+    """the same field repeated k times over (thousands to a hundred thousand cells): every cell of the large result is the cell of the small one -
+    minimum, maximum, mean and deviation of the repeated field are those of the field, and nothing depends on how large a grid is"""
+    reps = (k,) + (1,) * (c.inputs[0].ndim - 1)
+    ids = {}
+    ins = [ids.setdefault(id(a), numpy.ma.array(numpy.tile(numpy.ma.getdata(a), reps), mask=numpy.tile(numpy.ma.getmaskarray(a), reps))) for a in c.inputs]
+    out6 = run_impl(Case(c.cmd, c.params, ins))
+    ctx.count("tiled_field_twins")
+    if out6["status"] != "ok":
+        ctx.fail("%s: on the same field repeated %d times (%d cells) the command fails: %s" % (c.cmd, k, ins[0].size, impl_summary(out6)[:80]), dict(c.describe(), repeated=k))
+        return
+    v, w = out["vis"][3], out6["vis"][3]
+    m = len(v)
+    bad = [j for j in range(len(w)) if (w[j] is None) != (v[j % m] is None) or (w[j] is not None and abs(w[j] - v[j % m]) > 1e-9 * max(1.0, abs(v[j % m])))] \
+        if w is not None and len(w) == m * k else [0]
+    if getattr(out6.get("result"), "dtype", None) != getattr(out.get("result"), "dtype", None):
+        ctx.fail("%s: on the same field repeated %d times (%d cells) the result has element type %s; on the small field %s" % (
+            c.cmd, k, ins[0].size, getattr(out6.get("result"), "dtype", None), getattr(out.get("result"), "dtype", None)), dict(c.describe(), repeated=k))
+    elif bad or out6["vis"][1] != out["vis"][1]:
+        j = bad[0] if bad else 0
+        ctx.fail("%s: on the same field repeated %d times (%d cells), cell %d is %r where the small field gives %r (element type %s / %s)" % (
+            c.cmd, k, ins[0].size, j, w[j] if w is not None and j < len(w) else None, v[j % m], out6["vis"][1], out["vis"][1]), dict(c.describe(), repeated=k))
+
+
+def run_stream(ctx, model, cases, stream, tol=common.TOL, on_result=None, rerun=True, narrow=True, pipeline=True, layout=True, strict=True, payload=True, tile=True):
     """runs cases on implementation and model, records disagreements; calls on_result(case, out, answer)"""
     outs = []
     kept = []
@@ -799,6 +823,8 @@ def run_stream(ctx, model, cases, stream, tol=common.TOL, on_result=None, rerun=
             d = _same(out, out5)
             if d:
                 ctx.fail("%s: with NaN / infinity stored beneath the missing cells of its inputs the outcome differs (%s): hidden values leak" % (c.cmd, d), c.describe())
+        if tile and out["status"] == "ok" and out["vis"][3] is not None and c.inputs and c.inputs[0].ndim >= 1 and c.inputs[0].size >= 1 and ctx.rng.random() < 0.04:
+            tile_twin(ctx, c, out, ctx.rng.choice([700, 1200, 17000]) // max(1, c.inputs[0].size // 8 + 1) + 2)
         if pipeline and not trivial:
             # the same arguments through Program / Command.run / validate_params / the parameter cleaners: what the body is given, and what
             # comes back, must be what a direct call of the body gives (an argument equal to 0, "" or [] is still an argument)
